@@ -93,6 +93,12 @@ template <class T, int N> static void emitCase (const std::string& cls, const ty
     { M c (m); bool t2 = false; try { c.gjInvert (true); } catch (...) { t2 = true; } ++selfChecks;
       if (t2 != threw || (!t2 && !eqM<M, N> (c, r))) selfFailLine<T, N> ("gjInvert(true)-differs", m); }
     { M c (m); c.invert (); M v = m.inverse (); ++selfChecks; if (!eqM<M, N> (c, v)) selfFailLine<T, N> ("invert()-differs-from-inverse()", m); }
+    // the duplicated bodies taking `bool singExc`: with singExc = false they are non-throwing determinant-based forms too
+    { M v = m.inverse (); M vf = m.inverse (false); ++selfChecks; if (!eqM<M, N> (vf, v)) selfFailLine<T, N> ("inverse(false)-differs-from-inverse()", m);
+      M c (m); c.invert (false); ++selfChecks; if (!eqM<M, N> (c, v)) selfFailLine<T, N> ("invert(false)-differs-from-inverse()", m);
+      M gf = m.gjInverse (false); ++selfChecks; if (!eqM<M, N> (gf, r)) selfFailLine<T, N> ("gjInverse(false)-differs-from-gjInverse()", m);
+      bool t3 = false; M ve; try { ve = m.inverse (true); } catch (...) { t3 = true; } ++selfChecks;
+      if (!t3 && !eqM<M, N> (ve, v)) selfFailLine<T, N> ("inverse(true)-value-differs-from-inverse()", m); }
 }
 template <class T> static void self44 (const Matrix44<T>& m)
 {
@@ -341,6 +347,15 @@ template <class T, int N> static void both (const std::string& cls, const typena
     T d = detOf (m);
     if (std::fabs ((double) d) >= 1) ++detGe1; else ++detLt1;
     judge<T, N> (cls, inversePath<T, N> (m), m, m.inverse ());
+    {
+        // the duplicated `bool singExc` bodies with singExc = false are non-throwing determinant-based forms as well
+        typedef typename MatT<T, N>::type M;
+        M v = m.inverse (), vf = m.inverse (false), c (m);
+        c.invert (false);
+        if (!eqM<M, N> (vf, v) || !eqM<M, N> (c, v))
+            failLine (pstat[inversePath<T, N> (m) + " " + tyName<T> ()], "residue:spelling:" + inversePath<T, N> (m),
+                      std::string (tyName<T> ()) + " inverse(false)/invert(false) differ from inverse() class=" + cls + " in=" + inHex<T, N> (m));
+    }
     if (N > 2) judge<T, N> (cls, N == 3 ? "M33.gjInverse" : "M44.gjInverse", m, gjOf (m));
 }
 
